@@ -61,6 +61,17 @@ Definition terminate_drains_queues_completely : bool :=
   has "    q.get(block=True, timeout=1.0)" drain_and_join_queue_inner_body && has "    n -= 1" drain_and_join_queue_inner_body &&
   has "    q.task_done()" drain_and_join_queue_inner_body.
 
+(* the user function runs inside `with TimeIt(...)`: its exception reaches the handler of _run_safely only because
+   TimeIt.__exit__ returns nothing (a truthy return value would swallow it) *)
+Definition user_exception_reaches_the_handler : bool :=
+  negb (existsb (fun l => String.prefix "return" l || String.prefix "  return" l) timeit_exit_body) &&
+  match run_func_inner_body with
+  | a :: b :: _ => String.prefix "with TimeIt(" a && String.eqb b "  _results = func(*args) if self.is_apply_func else func(args)"
+  | _ => false end.
+(* the timeout handler scans a SNAPSHOT of the job cache (main and the results handler add and remove jobs meanwhile) *)
+Definition timeout_scan_uses_a_snapshot : bool :=
+  has "  if self.map_params.worker_init_timeout is None and self.map_params.worker_exit_timeout is None and all((job._timeout is None for job in self._cache.copy().values())):" timeout_handler_body.
+
 (* ---- the model ---- *)
 Inductive jid := JMap | JInit | JExit.
 Definition jid_eqb (a b : jid) : bool := match a, b with JMap, JMap | JInit, JInit | JExit, JExit => true | _, _ => false end.
@@ -110,7 +121,9 @@ Definition fstep (s : fst) (a : flabel) : option fst :=
                    end
           | FUser j UOk => Some (mkF (setw s w (mkFW FLoop (todo x))) (fexn s) (fjob s) (fresq s) (cexc s) (to2 s) (fmn s) (flog s))
           | FUser j (URaise e) =>
-              Some (mkF (setw s w (mkFW (FRaise1 j e) (todo x))) (fexn s) (fjob s) (fresq s) (cexc s) (to2 s) (fmn s) (flog s ++ [EUser e]))
+              if user_exception_reaches_the_handler
+              then Some (mkF (setw s w (mkFW (FRaise1 j e) (todo x))) (fexn s) (fjob s) (fresq s) (cexc s) (to2 s) (fmn s) (flog s ++ [EUser e]))
+              else None
           | FUser j (UBlock _) => None
           | FUser j UDie =>
               Some (mkF (setw s w (mkFW (FKilled j false) (todo x))) (fexn s) (fjob s) (fresq s) (cexc s) (to2 s) (fmn s) (flog s ++ [EDied w]))
@@ -147,7 +160,7 @@ Definition fstep (s : fst) (a : flabel) : option fst :=
           match wpc x with
           | FUser j (UBlock true) =>
               if fexn s then None
-              else if timeout_signals_kills_then_stores
+              else if timeout_signals_kills_then_stores && timeout_scan_uses_a_snapshot
               then Some (mkF (setw s w (mkFW FStopped (todo x))) true j (fresq s) (cexc s) (to2 s ++ [(j, ETimeout w)]) (fmn s)
                              (flog s ++ [ETimeout w]))
               else None
